@@ -175,6 +175,18 @@ CHECKS = {
         note='Small geometries enumerated (sampled subset in quick), realistic ones at boundary lengths.',
         technique='device-model monitor over packet log and flash image; reply-fault enumeration',
         engine='codec-oracles', design='DESIGN.md §3 C12'),
+    'C14': dict(
+        level='exploration',
+        text=('The real memory classes run against a byte-array memory handler: EEPROM v0/v1 images for all field values are '
+              'compared with the reference layout, parsed back, and every single-byte corruption (each offset x 3 values) must '
+              'give valid == recomputed checksum; 1-wire images for every subset/order of element kinds and every element-area '
+              'length that fits 112 bytes (ISO-8859-1) likewise with CRC corruptions; lighthouse geometry/calibration memory '
+              'layout, addresses and round trip; YAML round trips of LighthouseConfigFileManager (any subset of ids, invalid '
+              'entries omitted) and ParamFileManager in temp files; Poly4D / compressed trajectory / LED-timing write layouts; '
+              'deck-memory info sections over all bit fields and Loco / Loco2 anchor lists parsed to the encoded fields.'),
+        note='Reference layouts in vf/refcodec.py and struct; corruptions that make a device read run past the 1-wire memory are not generated.',
+        technique='reference-encoder / decoder oracles on images captured at a byte-array memory handler; corruption sweep',
+        engine='codec-oracles', design='DESIGN.md §3 C14'),
 }
 
 PENDING_REASON = ('check not built yet in this work session (design in DESIGN.md §3); nothing is claimed for it '
